@@ -40,6 +40,8 @@ import traceback
 VERIF = os.path.dirname(os.path.dirname(os.path.abspath(__file__)))
 LEAN_DIR = os.environ.get('VERIF_LEAN_DIR', os.path.join(VERIF, 'lean'))
 REPO = os.environ.get('VERIF_REPO', '/repo')
+# evidence/ and replays/ live under OUT (default: /verif itself; mutant trials point it elsewhere)
+OUT = os.environ.get('VERIF_OUT', VERIF)
 if REPO not in sys.path:
   sys.path.insert(0, REPO)   # the implementation under test is imported from this working tree
 ALLOWED_AXIOMS = {'propext', 'Classical.choice', 'Quot.sound'}
@@ -364,7 +366,7 @@ def run_impl_parallel(modname, cases, jobs):
 
 
 def write_replay(pid, kind, case, detail, extra=None):
-  d = os.path.join(VERIF, 'replays', pid)
+  d = os.path.join(OUT, 'replays', pid)
   os.makedirs(d, exist_ok=True)
   body = dict(property=pid, kind=kind, case=case, detail=detail)
   if extra:
@@ -372,7 +374,7 @@ def write_replay(pid, kind, case, detail, extra=None):
   path = os.path.join(d, f'{kind}_{case_hash([kind, case, detail if case is None else None])}.json')
   with open(path, 'w') as f:
     json.dump(body, f, indent=1, sort_keys=True, default=str)
-  return os.path.relpath(path, VERIF)
+  return os.path.relpath(path, OUT)
 
 
 def run_check(mod, tier, seed, replay=None):
@@ -548,8 +550,8 @@ def run_check(mod, tier, seed, replay=None):
       wall_s=round(time.time() - t0, 2),
       violations=violations,
   )
-  os.makedirs(os.path.join(VERIF, 'evidence'), exist_ok=True)
-  with open(os.path.join(VERIF, 'evidence', f'{pid}.json'), 'w') as f:
+  os.makedirs(os.path.join(OUT, 'evidence'), exist_ok=True)
+  with open(os.path.join(OUT, 'evidence', f'{pid}.json'), 'w') as f:
     json.dump(ev, f, indent=1, sort_keys=True, default=str)
   for l in lines:
     print(l)
@@ -569,7 +571,7 @@ def _fails(mod, case):
 
 def do_replay(mod, ctx, path):
   if not os.path.isabs(path):
-    path = os.path.join(VERIF, path)
+    path = os.path.join(OUT, path)
   body = json.load(open(path))
   case = body.get('case')
   if case is None:
